@@ -2794,7 +2794,21 @@ func NewValArg(in []byte) *SQLVal {
 func (node *SQLVal) Format(buf *TrackedBuffer) {
 	switch node.Type {
 	case StrVal:
-		sqltypes.MakeTrusted(sqltypes.VarBinary, node.Val).EncodeSQL(buf)
+		// Escape exactly what the tokenizer's scanString decodes: \', \\ and \n.
+		buf.WriteByte('\'')
+		for _, ch := range node.Val {
+			switch ch {
+			case '\'':
+				buf.WriteString("\\'")
+			case '\\':
+				buf.WriteString("\\\\")
+			case '\n':
+				buf.WriteString("\\n")
+			default:
+				buf.WriteByte(ch)
+			}
+		}
+		buf.WriteByte('\'')
 	case IntVal, FloatVal, HexNum:
 		buf.Myprintf("%s", []byte(node.Val))
 	case HexVal:
